@@ -92,6 +92,17 @@ def grid(tier):
                     for eol, fin in EOLS:
                         yield {"rows": [[cell(i, j) for j in range(c)] for i in range(r)], "trail": trail, "after": after,
                                "eol": eol, "final": fin, "before": [], "noise": {}, "sep": " ", "lead": " ", "trailpad": ""}
+    for case in _grid_tab():
+        yield case
+
+
+def _grid_tab():
+    for r in (1, 3):
+        for c in (1, 2, 4):
+            for sep in ("\t", "\t\t", " \t"):
+                for after in ("last", "P"):
+                    yield {"rows": [[cell(i, j) for j in range(c)] for i in range(r)], "trail": "none", "after": after, "eol": "\n", "final": True,
+                           "before": [], "noise": {}, "sep": sep, "lead": "", "trailpad": "", "dlm": "TAB"}
 
 
 def n_random(tier):
@@ -139,16 +150,20 @@ def random_case(rng, tier):
         if rng.random() < dens:
             noise[str(i)] = [rng.choice(["", "   ", "# comment 1 2 3", "#", "\t", "   # padded comment 4 5", " \t # 7"]) for _ in range(rng.randint(1, 2))]
     sep = rng.choice([" ", "  ", "     ", "\t", [" ", "\t", "  \t "], ["  ", " "]])
+    dlm = None
+    if rng.random() < 0.2:
+        dlm = "TAB"             # declared tab delimiter: values separated by one or more tabs (with optional blanks around them)
+        sep = rng.choice(["\t", "\t\t", [" \t", "\t ", "\t\t\t"], "\t\t\t"])       # never tab-blank-tab: that is an empty field, not padding
     return {"rows": rows, "trail": rng.choice(list(TRAILING)), "after": rng.choice(list(AFTER)),
             "eol": rng.choice(["\n", "\n", "\r\n"]), "final": rng.random() < 0.7,
             "before": rng.choice([[], ["P"], ["O"], ["P", "O"], ["X"]]), "noise": noise, "sep": sep,
-            "lead": rng.choice(["", " ", "    ", "\t"]), "trailpad": rng.choice(["", " ", "   ", "\t"]), "kinds": kinds}
+            "lead": rng.choice(["", " ", "    ", "\t"]) if not dlm else "", "trailpad": rng.choice(["", " ", "   ", "\t"]) if not dlm else "", "kinds": kinds, "dlm": dlm}
 
 
 def build_text(case):
     rows = case["rows"]
     c = len(rows[0])
-    secs = lastext.std_header(c)
+    secs = lastext.std_header(c, dlm=case.get("dlm"))
     secs += after_sections(case.get("before", []))
     noise = dict(case.get("noise", {}))
     if TRAILING[case["trail"]]:
@@ -283,7 +298,7 @@ def run_case(case, ctx):
         ctx.violation(mech + (":noise" if has_noise else ""), "; ".join(diffs[:4]) + " [numpy path: %s]" % a["path"],
                       {"text": text, "numpy_vs_truth": sa, "normal_vs_truth": sb})
     sig = ["r1" if r == 1 else "r2-6" if r <= 6 else "r>6", "c1" if c == 1 else "c2-6" if c <= 6 else "c>6", case["trail"],
-           case["after"], case["eol"], case["final"], sorted(case.get("kinds", ["grid"])), sorted(len(v) for v in case.get("noise", {}).values())[:3],
+           case["after"], case["eol"], case["final"], case.get("dlm"), sorted(case.get("kinds", ["grid"])), sorted(len(v) for v in case.get("noise", {}).values())[:3],
            bool(case.get("before")), str(case.get("sep"))]
     if fast:
         ctx.case_done(sig + ["fast"], nontrivial=(r * c >= 2 or has_noise or case["after"] != "last"))
